@@ -5,7 +5,7 @@ cd "$(dirname "$0")"
 gcc -O1 -shared -fPIC -o shim/libfsshim.so shim/fsshim.c -ldl -lpthread
 [ -f harness/Cargo.lock ] || cp /repo/Cargo.lock harness/Cargo.lock
 (cd harness && CARGO_NET_OFFLINE=true cargo build --offline --quiet)
-for m in MCSteps TraceSeq GenSeq MCConc TraceConc MCRange MCBlob MCCodec TraceVec MCLock TraceLock MCPower MCDamage MCFault; do
+for m in MCSteps TraceSeq GenSeq MCConc TraceConc MCRange MCBlob MCCodec TraceVec MCLock TraceLock MCPower MCDamage MCFault MCCounts; do
   (cd spec && tla-sany $m.tla 2>&1 | grep -q "Semantic processing of module $m") || { echo "SANY failed on $m"; exit 1; }
 done
 echo "setup ok"
